@@ -163,7 +163,15 @@ pub fn run(tier: &str) -> i32 {
     // 2. guard-off: in-process twice + K fresh processes
     let k_proc = if tier == "quick" { 6 } else { 24 };
     let mine: Vec<String> = { use rayon::prelude::*; ins.par_iter().map(|i| render(&expand(&i.src))).collect() };
-    let mine2: Vec<String> = { use rayon::prelude::*; ins.par_iter().rev().map(|i| render(&expand(&i.src))).collect::<Vec<_>>().into_iter().rev().collect() };
+    // (only verdicts are kept of the second in-process pass and of the fresh processes: K x N output strings were 30 GB
+    //  in the thorough tier)
+    let same2: Vec<bool> = {
+        use rayon::prelude::*;
+        let mut v: Vec<(usize, bool)> = ins.par_iter().enumerate().rev().map(|(k, i)| (k, render(&expand(&i.src)) == mine[k])).collect();
+        v.sort();
+        v.into_iter().map(|x| x.1).collect()
+    };
+    drop(ord);
     let me = std::env::current_exe().unwrap();
     // 3. which environment variables does an expansion READ?  libc's getenv is interposed (LD_PRELOAD) in one run over all
     //    inputs and in one run over no input; a name read only in the former is read by the expansion itself.
@@ -204,7 +212,9 @@ pub fn run(tier: &str) -> i32 {
             rep.assume(&format!("environment reads could not be traced ({}); environment independence rests on the three environment profiles of the fresh-process runs only", e));
         }
     }
-    let mut proc_outs: Vec<Vec<String>> = vec![];
+    // first fresh process (and its output) that disagrees with `mine`, per input
+    let mut pdiff: Vec<Option<(usize, String)>> = (0..ins.len()).map(|_| None).collect();
+    let mut pseen: Vec<u32> = vec![0; ins.len()];
     for p in 0..k_proc {
         let o = format!("{}/p{}.jsonl", dir, p);
         // the fresh processes also differ in their ENVIRONMENT: inherited | empty | a cargo-like one with odd values
@@ -226,19 +236,25 @@ pub fn run(tier: &str) -> i32 {
             eprintln!("MACHINERY-ERROR: fresh-process run failed");
             return 2;
         }
-        let mut v: Vec<String> = (0..ins.len()).map(|_| String::new()).collect();
         for line in std::io::BufReader::new(std::fs::File::open(&o).unwrap()).lines() {
             let j: Value = serde_json::from_str(&line.unwrap()).unwrap();
             let k: usize = j["k"].as_str().unwrap().parse().unwrap();
             let msgs = || j["m"].as_array().map(|a| a.iter().map(|x| x.as_str().unwrap_or("").to_string()).collect::<Vec<_>>()).unwrap_or_default();
-            v[k] = match j["v"].as_str().unwrap() {
+            let got = match j["v"].as_str().unwrap() {
                 "ok" => format!("OK {}", j["t"].as_str().unwrap()),
                 "err" => format!("ERR {}", msgs().join(" || ")),
                 "panic" => format!("PANIC {}", msgs().join(" ").rsplit_once(':').map(|x| x.0.to_string()).unwrap_or_default()),
                 _ => format!("NOTITEM {}", msgs().join(" ")),
             };
+            pseen[k] += 1;
+            if got != mine[k] && pdiff[k].is_none() {
+                pdiff[k] = Some((p, got));
+            }
         }
-        proc_outs.push(v);
+    }
+    if pseen.iter().any(|c| *c != k_proc as u32) {
+        eprintln!("MACHINERY-ERROR: a fresh process did not report every input");
+        return 2;
     }
     let _ = std::fs::remove_dir_all(&dir);
     for (k, i) in ins.iter().enumerate() {
@@ -249,7 +265,7 @@ pub fn run(tier: &str) -> i32 {
             rep.nontrivial.add_of(&i.src);
         }
         let mut diffs: Vec<String> = vec![];
-        if mine[k] != mine2[k] {
+        if !same2[k] {
             diffs.push("two expansions in one process differ".into());
         }
         // panics render differently across the two encodings; compare only non-panic outputs byte-wise
@@ -257,17 +273,14 @@ pub fn run(tier: &str) -> i32 {
             if base[k] != mine[k] {
                 diffs.push("guard-off output differs from the output explored in the hooks build".into());
             }
-            for (p, po) in proc_outs.iter().enumerate() {
-                if po[k] != mine[k] {
-                    diffs.push(format!("fresh process #{} differs", p));
-                    break;
-                }
+            if let Some((p, _)) = &pdiff[k] {
+                diffs.push(format!("fresh process #{} differs", p));
             }
         }
         if !diffs.is_empty() {
             let mut fl = super::fail(&i.space, &i.choices, &i.src, &i.tags, "order-dependent-output", diffs.join("; "));
             fl.expected = crate::xp::trunc(&mine[k], 600);
-            fl.observed = crate::xp::trunc(proc_outs.iter().map(|p| &p[k]).find(|x| **x != mine[k]).unwrap_or(&base[k]), 600);
+            fl.observed = crate::xp::trunc(pdiff[k].as_ref().map(|x| &x.1).unwrap_or(&base[k]), 600);
             rep.fail(fl);
         }
         if rep.want_sample() && mine[k].matches(" || ").count() >= 3 {
